@@ -1,6 +1,8 @@
-(** Property C16 — statements only. Each theorem is closed by [exact] of a lemma
-    proved elsewhere and followed by [Print Assumptions]. *)
-From CR Require Import Base Atomic Machine LinksFacts HeapFacts TraceFacts Local.
+(** Property C16 — cloning a handle to a destroyed object aborts. *)
+From Coq Require Import Permutation.
+From CR Require Import Base Atomic Machine LinksFacts HeapFacts TraceFacts TraceTotal Local StackBound
+  Termination Perm StdRc StdRefine Tokens InvDef InvLemmas ActBase ActHandles ActAdopt ActMove ActConsume
+  StepFrames StepPanic Purge GroupOps DropDec Group DropLast StepInv RunInv Consequences Common.
 Local Open Scope N_scope.
 
 Theorem C16_clone_dead_aborts :
@@ -11,11 +13,45 @@ Theorem C16_clone_dead_aborts :
 Proof. exact clone_dead_aborts. Qed.
 Print Assumptions C16_clone_dead_aborts.
 
-Theorem C16_drop_dead_no_effect :
-  forall pri s k u o b,
+Theorem C16_increment_dead_aborts :
+  forall s self r dst o b,
+  reg_get s r = RRaw o -> reg_free s dst = true ->
   getb (heap_of s) o = Ok b -> is_dead (strong b) = true ->
-  step pri {| st := s; stack := FDropStrong o :: k; unw := u |} =
-  Running {| st := s; stack := k; unw := u |}.
-Proof. exact step_drop_dead. Qed.
+  exec_act s self (AIncStrong r dst) = AHalt HAbort.
+Proof. exact incs_dead_aborts. Qed.
+Print Assumptions C16_increment_dead_aborts.
+
+(** dropping such a handle has no effect, and the allocation it points to has
+    not been released (the invariant keeps it until the group's finish step) *)
+Theorem C16_drop_dead_no_effect :
+  forall pri s o k b,
+  Inv s (FDropStrong o :: k) -> getb (heap_of s) o = Ok b -> is_dead (strong b) = true ->
+  drop_strong pri s o = Ok (s, []) /\ Inv s k.
+Proof. exact drop_dead_inv. Qed.
 Print Assumptions C16_drop_dead_no_effect.
 
+(** whichever peer and position: when any member's destructor runs during a
+    group teardown, EVERY member is already marked destroyed ([group_heap]:
+    all keys are [gone], i.e. strong = the uninit marker), and a handle a
+    destructor holds to a peer can only be cloned (abort), dropped (no-op),
+    or counted: it never targets a released allocation ([inv_top_token]) *)
+Theorem C16_all_members_dead_during_teardown :
+  forall s k o pri cyc pops visits,
+  Inv s k -> (forall x, reach (heap_of s) o x -> disc_at (heap_of s) x) ->
+  orphaned_cycle (heap_of s) o = Ok (Some cyc, pops, visits) ->
+  let cyc' := order_cycle pri cyc in
+  let keys := map fst cyc' in
+  exists h2 h3 inners,
+    bust_all (heap_of s) keys cyc' = Ok h2 /\ gather h2 keys [] = Ok (h3, inners) /\
+    group_heap (heap_of s) h3 keys /\
+    (forall y, In y keys <-> reach (heap_of s) o y) /\
+    Inv (add_ev (set_heap (add_ev s (EvTrace o pops visits)) h3) (EvGroup keys))
+        (FInners inners :: FFinishGroup keys :: k).
+Proof. exact group_inv. Qed.
+Print Assumptions C16_all_members_dead_during_teardown.
+
+Theorem C16_frame_handles_never_dangle :
+  forall s fr k o, Inv s (fr :: k) -> 0 < w_frame (sw_strong o) fr ->
+  exists b, getb (heap_of s) o = Ok b /\ (live b = true \/ strong b = Uninit).
+Proof. exact inv_top_token. Qed.
+Print Assumptions C16_frame_handles_never_dangle.
